@@ -58,13 +58,18 @@ def generate(rng, size="small"):
                 if len(pool) < 400:
                     pool.append(s)
             # two flavours of section name, both land in .rodata
-            name = ".rodata.str1.1" if k == 0 else f".rodata.str1.1.x{k}"
+            # Flavours: the usual one (merged into .rodata); a custom-named merge section (a second
+            # output section that is merged on its own, concurrently); and an 8-aligned string
+            # section (wild copies those without merging: alignment > 1).
+            flavour = rng.choice(["rodata"] * 7 + ["custom", "custom", "aligned"])
             secs.append({"name": ".rodata.str1.1", "strings": strings, "unterminated": False,
-                         "label": f"sec{o}_{k}"})
+                         "label": f"sec{o}_{k}", "flavour": flavour})
         w.sections.append(secs)
     if w.unterminated:
         o = rng.randrange(nobj)
         w.sections[o][-1]["unterminated"] = True
+        if w.sections[o][-1]["flavour"] == "aligned":
+            w.sections[o][-1]["flavour"] = "rodata"  # only merged sections are scanned for NULs
     for o in range(nobj):
         ptrs = []
         for _ in range(rng.randint(2, 40)):
@@ -101,9 +106,14 @@ def emit(w, workdir):
                 mids.setdefault((si, j), set()).add(addend)
         for si, sec in enumerate(w.sections[o]):
             # Distinct section *instances* with the same name/flags need distinct "unique" ids.
-            out.append(f'\t.section .rodata.str1.1,"aMS",@progbits,1,unique,{si + 1}')
+            fl = sec.get("flavour", "rodata")
+            secname = {"rodata": ".rodata.str1.1", "custom": "mystrings",
+                       "aligned": ".rodata.str1.8"}[fl]
+            out.append(f'\t.section {secname},"aMS",@progbits,1,unique,{si + 1}')
             last = len(sec["strings"]) - 1
             for j, s in enumerate(sec["strings"]):
+                if fl == "aligned":
+                    out.append("\t.p2align 3")
                 out.append(f"s{o}_{si}_{j}:")
                 cuts = sorted(mids.get((si, j), ()))
                 pos = 0
@@ -155,13 +165,21 @@ def expected(w, o, ptr):
     return s[addend:] + b"\0"
 
 
-def distinct_strings(w):
+def distinct_strings(w, by_output_section=False):
+    """Distinct strings (with NUL); with by_output_section a dict output-section-name -> set."""
     out = set()
+    by = {}
     for o in range(w.nobj):
         for sec in w.sections[o]:
+            name = "mystrings" if sec.get("flavour") == "custom" else ".rodata"
             for s in sec["strings"]:
                 out.add(s + b"\0")
-    return out
+                # An aligned string section is not merged but copied like any other section, and
+                # like any other section it is garbage-collected when nothing references it: its
+                # strings carry no presence obligation (the pointers into it are still checked).
+                if sec.get("flavour") != "aligned":
+                    by.setdefault(name, set()).add(s + b"\0")
+    return by if by_output_section else out
 
 
 def total_bytes(w):
